@@ -53,6 +53,7 @@ type Options struct {
 	Unit       int64 // step of a late tick
 	Horizon    int64 // late ticks are not taken beyond this clock value
 	KeyHistory bool  // never reset digests, do not hash root objects
+	EagerStart bool  // a new thread runs up to its first operation at once (no start point)
 	Trace      bool
 	MaxSteps   int
 	// ResetDepth returns, for a library thread started as `go name(...)`, the
@@ -874,6 +875,11 @@ func (t *Thread) run(fn func()) {
 		panic(poison{})
 	}
 	t.started = true
+	if !t.w.Opt.EagerStart && t.ID != 0 {
+		// a goroutine that has been created is not running yet: its start is a
+		// scheduling point of its own (everything may happen in between)
+		t.w.op(&pending{kind: OpYield})
+	}
 	fn()
 }
 
@@ -1163,6 +1169,11 @@ func (w *World) apply(tr Trans) {
 	case OpSleep:
 		w.tracef("%s: slept", t.Name)
 	case OpYield:
+		if !t.Lib {
+			// harness threads have no stack hash: a yield must still move their digest
+			// (threads that declare their state with Mark reset it at the next Mark)
+			w.note(t, EvOther, nil, 0, 0x71e1d, false)
+		}
 		w.tracef("%s: yield", t.Name)
 	case OpBlock:
 		p.blk.Acquire(t)
